@@ -258,13 +258,29 @@ pub fn run(ctx: &Ctx) -> (Stats, Report) {
                             return;
                         }
                     }
-                    for &dt in &dts {
+                    for &dt in dts.iter() {
                         st.evaluations += 1;
                         st.nontrivial_enum += 1;
                         if let Err(m) = check_add_dt(r.n, t, dt) {
                             st.fail(i, Case::new(P, "add_dt", vec![r.n as i128, t as i128, dt], vec![]), m);
                             return;
                         }
+                    }
+                }
+            }
+            // intervals built from the value itself, for every time of day of the sweep: its own
+            // time of day (alone and with whole days), the complement to midnight, with a fraction
+            for &t in times.iter() {
+                let tt = t as i128;
+                if tt == 0 {
+                    continue;
+                }
+                for dt in [tt, 3 * US_PER_DAY + tt, US_PER_DAY - tt, tt + 250_000, 2 * US_PER_DAY + (US_PER_DAY - tt) - 360_000] {
+                    st.evaluations += 1;
+                    st.nontrivial_enum += 1;
+                    if let Err(m) = check_add_dt(r.n, t, dt) {
+                        st.fail(i, Case::new(P, "add_dt", vec![r.n as i128, t as i128, dt], vec![]), m);
+                        return;
                     }
                 }
             }
